@@ -205,7 +205,43 @@ pub fn tree(ctx: &Ctx, d: &Domain) -> BoxedStrategy<Vec<Node>> {
         }
         proptest::strategy::Union::new_weighted(v).boxed()
     });
-    prop::collection::vec(node, 1..=d.max_nodes).boxed()
+    (prop::collection::vec(node, 1..=d.max_nodes), any::<u32>())
+        .prop_map(|(mut nodes, bits)| {
+            let mut k = bits;
+            repeat_clips(&mut nodes, None, &mut k);
+            nodes
+        })
+        .boxed()
+}
+
+/// Coincidences that independent draws never produce: a clip group pushing exactly the clip an earlier sibling
+/// pushed (the same path object pushed again after a pop), or exactly the clip of the group it is nested in.
+fn repeat_clips(nodes: &mut [Node], parent: Option<&Op>, bits: &mut u32) {
+    fn take(bits: &mut u32, n: u32) -> bool {
+        *bits = bits.wrapping_mul(1664525).wrapping_add(1013904223);
+        (*bits >> 16) % n == 0
+    }
+    let mut earlier: Option<Op> = None;
+    for node in nodes.iter_mut() {
+        match node {
+            Node::Clip(push, kids) => {
+                if let Some(e) = &earlier {
+                    if take(bits, 3) {
+                        *push = e.clone();
+                    }
+                } else if let Some(p) = parent {
+                    if take(bits, 6) {
+                        *push = p.clone();
+                    }
+                }
+                earlier = Some(push.clone());
+                let own = push.clone();
+                repeat_clips(kids, Some(&own), bits);
+            }
+            Node::Layer(_, _, kids) => repeat_clips(kids, parent, bits),
+            Node::Op(_) => {}
+        }
+    }
 }
 
 // ---------------------------------------------------------------------------
